@@ -2,6 +2,7 @@ package common
 
 import (
 	"fmt"
+	gotypes "go/types"
 	"strings"
 )
 
@@ -13,6 +14,11 @@ type UniImpl struct {
 	// Builtins reports, for two fresh universes, whether the builtin objects are shared singletons and
 	// whether repeated lookups return the same object (C06).
 	LookupChecks func() []Failure
+	// LoadHistory runs a loading history on the real code: an initial load of `initial`, then one
+	// incremental load per element of `steps`. It returns the final universe, whether every object
+	// obtained before an incremental load was still the registered one afterwards, and the reported
+	// input list.
+	LoadHistory func(prog *Program, initial []string, steps [][]string) (snap *USnap, objectsStable bool, inputs []string, err error)
 }
 
 func progLines(variant string, prog *Program, facts []string, requested []string) []string {
@@ -166,4 +172,273 @@ func corpusPrograms(v2 bool) []*Program {
 			mkProg(true, [3]string{"example.com/m/a", "", "package a\n\ntype T struct{ X int }\n\ntype U = T\n\ntype W struct{ F U; G any }\n"}))
 	}
 	return ps
+}
+
+// ---- C11: the universe does not depend on how loading was split or ordered ----
+
+func reachableNamed(chk *Checked, requested []string) map[string]bool {
+	seen := map[gotypes.Type]bool{}
+	out := map[string]bool{}
+	var rec func(t gotypes.Type)
+	rec = func(t gotypes.Type) {
+		t = gotypes.Unalias(t)
+		if seen[t] {
+			return
+		}
+		seen[t] = true
+		switch x := t.(type) {
+		case *gotypes.Named:
+			if x.Obj().Pkg() != nil {
+				out[x.Obj().Pkg().Path()+"."+x.Obj().Name()] = true
+			}
+			rec(x.Underlying())
+			for i := 0; i < x.NumMethods(); i++ {
+				rec(x.Method(i).Type())
+			}
+			for i := 0; i < x.TypeArgs().Len(); i++ {
+				rec(x.TypeArgs().At(i))
+			}
+		case *gotypes.Pointer:
+			rec(x.Elem())
+		case *gotypes.Slice:
+			rec(x.Elem())
+		case *gotypes.Array:
+			rec(x.Elem())
+		case *gotypes.Chan:
+			rec(x.Elem())
+		case *gotypes.Map:
+			rec(x.Key())
+			rec(x.Elem())
+		case *gotypes.Struct:
+			for i := 0; i < x.NumFields(); i++ {
+				rec(x.Field(i).Type())
+			}
+		case *gotypes.Signature:
+			for i := 0; i < x.Params().Len(); i++ {
+				rec(x.Params().At(i).Type())
+			}
+			for i := 0; i < x.Results().Len(); i++ {
+				rec(x.Results().At(i).Type())
+			}
+			if x.Recv() != nil {
+				rec(x.Recv().Type())
+			}
+		case *gotypes.Interface:
+			x.Complete()
+			for i := 0; i < x.NumMethods(); i++ {
+				rec(x.Method(i).Type())
+			}
+		}
+	}
+	for _, path := range requested {
+		sc := chk.Pkgs[path].Scope()
+		for _, n := range sc.Names() {
+			rec(sc.Lookup(n).Type())
+		}
+	}
+	return out
+}
+
+func LoadingProperty(impl UniImpl) Property {
+	variant := "v1"
+	if impl.V2 {
+		variant = "v2"
+	}
+	exec := func(lines []string) ([]string, []Failure) {
+		outs := make([]string, len(lines))
+		for i := range outs {
+			outs[i] = "ok"
+		}
+		var fails []Failure
+		prog := &Program{Module: "example.com/m", V2: impl.V2}
+		var initial []string
+		var steps [][]string
+		var loadIdx []int
+		dumpIdx, inputsIdx := -1, -1
+		expectErr := false
+		for i, l := range lines {
+			f := Fields(l)
+			switch f[1] {
+			case "src":
+				prog.Pkgs = append(prog.Pkgs, &ProgPkg{Path: Unhex(f[2]), Name: Unhex(f[3]), File: Unhex(f[4]), Imports: UnhexList(f[5]), Source: Unhex(f[6])})
+			case "load":
+				initial = UnhexList(f[2])
+				loadIdx = append(loadIdx, i)
+			case "loadto":
+				steps = append(steps, UnhexList(f[2]))
+				loadIdx = append(loadIdx, i)
+			case "dump":
+				dumpIdx = i
+			case "inputs":
+				inputsIdx = i
+			case "expecterror":
+				expectErr = true
+			}
+		}
+		if expectErr {
+			// a requested package that is missing or does not parse must yield an error
+			_, _, _, err := impl.LoadHistory(prog, initial, steps)
+			if err == nil {
+				fails = append(fails, Failure{"bad-package-no-error", fmt.Sprintf("loading %v %v (with a missing or broken requested package) returned no error", initial, steps)})
+			}
+			return outs, fails
+		}
+		chk, err := prog.Check()
+		if err != nil {
+			return outs, []Failure{{"generator-ill-typed", err.Error()}}
+		}
+		snap, stable, inputs, err := impl.LoadHistory(prog, initial, steps)
+		if err != nil {
+			for _, i := range loadIdx {
+				outs[i] = "fail"
+			}
+			return outs, []Failure{{"load-fails", fmt.Sprintf("history %v %v failed: %v", initial, steps, err)}}
+		}
+		if dumpIdx >= 0 {
+			outs[dumpIdx] = Hex(snap.Dump())
+		}
+		req := map[string]bool{}
+		for _, p := range initial {
+			req[p] = true
+		}
+		for _, s := range steps {
+			for _, p := range s {
+				req[p] = true
+			}
+		}
+		requested := SortedKeys(req)
+		if inputsIdx >= 0 {
+			outs[inputsIdx] = HexList(inputs)
+			if strings.Join(inputs, ",") != strings.Join(requested, ",") {
+				fails = append(fails, Failure{"inputs-wrong", fmt.Sprintf("reported inputs %v, requested %v", inputs, requested)})
+			}
+		}
+		if !stable {
+			fails = append(fails, Failure{"object-invalidated", "an object obtained before an incremental load is no longer the registered one (or changed) afterwards"})
+		}
+		// same universe as one combined load
+		if len(steps) > 0 {
+			one, _, _, err := impl.LoadHistory(prog, requested, nil)
+			if err != nil {
+				fails = append(fails, Failure{"load-fails", fmt.Sprintf("combined load of %v failed: %v", requested, err)})
+			} else if one.Dump() != snap.Dump() {
+				fails = append(fails, Failure{"history-dependent", fmt.Sprintf("loading %v then %v gives a different universe than loading %v at once:\n%s\n--- vs ---\n%s", initial, steps, requested, Trunc(firstDiff(snap.Dump(), one.Dump()), 600), "")})
+			}
+		}
+		// requested packages complete and faithful; dependency packages contribute only what is reachable
+		for _, f := range UniverseOracles("C01", snap, chk, prog, requested, impl.V2) {
+			fails = append(fails, f)
+		}
+		reach := reachableNamed(chk, requested)
+		for path, pk := range snap.Pkgs {
+			if req[path] || path == "" {
+				continue
+			}
+			if len(pk.Funcs)+len(pk.Vars)+len(pk.Consts) > 0 {
+				fails = append(fails, Failure{"dependency-overscanned", fmt.Sprintf("dependency package %s contributes functions/variables/constants", path)})
+			}
+			for k := range pk.Types {
+				base := k
+				if i := strings.Index(k, "["); i >= 0 {
+					base = k[:i]
+				}
+				if !reach[path+"."+base] {
+					fails = append(fails, Failure{"dependency-overscanned", fmt.Sprintf("type %s.%s of a dependency package is in the universe but not reachable from the requested packages %v", path, k, requested)})
+				}
+			}
+		}
+		return outs, fails
+	}
+	return Property{
+		Exec: exec,
+		Gen: func(c *Ctx) {
+			r := c.RNG("histories")
+			n := c.Scale(60, 1200)
+			if !impl.V2 {
+				n = c.Scale(120, 2400)
+			}
+			for i := 0; i < n; i++ {
+				prog := GenProgram(r, ProgOpts{V2: impl.V2, MaxPkgs: 5})
+				chk, err := prog.Check()
+				if err != nil {
+					c.Feature("generator-discarded", 1)
+					continue
+				}
+				facts := chk.FactLines(prog)
+				// request set: a non-empty subset
+				var req []string
+				for _, p := range prog.Pkgs {
+					if r.Chance(2, 3) {
+						req = append(req, p.Path)
+					}
+				}
+				if len(req) == 0 {
+					req = []string{prog.Pkgs[len(prog.Pkgs)-1].Path}
+				}
+				// a random split and order
+				perm := r.Perm(len(req))
+				var order []string
+				for _, j := range perm {
+					order = append(order, req[j])
+				}
+				k := 1 + r.Intn(len(order))
+				initial := order[:k]
+				var steps [][]string
+				for rest := order[k:]; len(rest) > 0; {
+					m := 1 + r.Intn(len(rest))
+					steps = append(steps, rest[:m])
+					rest = rest[m:]
+				}
+				ls := []string{Line("uni", "reset", variant)}
+				for _, p := range prog.Pkgs {
+					ls = append(ls, Line("uni", "src", Hex(p.Path), Hex(p.Name), Hex(p.File), HexList(p.Imports), Hex(p.Source)))
+				}
+				ls = append(ls, facts...)
+				ls = append(ls, Line("uni", "load", HexList(initial)))
+				for _, s := range steps {
+					ls = append(ls, Line("uni", "loadto", HexList(s)))
+				}
+				ls = append(ls, Line("uni", "inputs"), Line("uni", "dump"))
+				feats := []string{fmt.Sprintf("pkgs:%d", len(prog.Pkgs)), fmt.Sprintf("requested:%d", len(req)), fmt.Sprintf("steps:%d", len(steps))}
+				if len(req) < len(prog.Pkgs) {
+					feats = append(feats, "has-dependency-only-package")
+				}
+				c.Case(ls, Meta{Nontrivial: len(steps) > 0 || len(req) < len(prog.Pkgs), Features: feats})
+				if i%10 == 0 {
+					// a missing / broken requested package
+					bad := &Program{Module: prog.Module, V2: prog.V2, Pkgs: append([]*ProgPkg(nil), prog.Pkgs...)}
+					var ls2 []string
+					ls2 = append(ls2, Line("uni", "reset", variant))
+					badReq := "example.com/m/doesnotexist"
+					if r.Bool() {
+						bp := &ProgPkg{Path: "example.com/m/zbroken", Name: "zbroken", File: "types.go", Source: "package zbroken\n\ntype T struct {\n"}
+						bad.Pkgs = append(bad.Pkgs, bp)
+						badReq = bp.Path
+					}
+					for _, p := range bad.Pkgs {
+						ls2 = append(ls2, Line("uni", "src", Hex(p.Path), Hex(p.Name), Hex(p.File), HexList(p.Imports), Hex(p.Source)))
+					}
+					ls2 = append(ls2, Line("uni", "expecterror"), Line("uni", "load", HexList(append(append([]string(nil), initial...), badReq))))
+					c.Case(ls2, Meta{Nontrivial: true, NoModel: true, Features: []string{"bad-requested-package"}})
+				}
+			}
+		},
+	}
+}
+
+func firstDiff(a, b string) string {
+	la, lb := strings.Split(a, "\n"), strings.Split(b, "\n")
+	for i := 0; i < len(la) || i < len(lb); i++ {
+		x, y := "", ""
+		if i < len(la) {
+			x = la[i]
+		}
+		if i < len(lb) {
+			y = lb[i]
+		}
+		if x != y {
+			return Readable("x\ty\t"+x) + "  |  " + Readable("x\ty\t"+y)
+		}
+	}
+	return ""
 }
